@@ -9,6 +9,7 @@
     TreeRecords   fromRecordsRaw characterised by the records
     TreePaths     root-to-leaf paths of the built tree = the records
     TreeCells     dropCells (to_str(drop_cells=True)); flatten after drop = flatten
+    (TreeLca      every pair of leaves is listed under exactly one parent; imports this file)
     TreeCommute   dropLevel ∘ fromRecords ≈ fromRecords on the erased column (C17's tree lemma)
   and glues the model's `leafPairs` to `crossPairs`.
 -/
@@ -147,5 +148,43 @@ theorem drop_ancestorAt (w : WF t) {i : Nat} (hi : i < t.hierarchy.length)
     rw [drop_nodesAt_idx w.hNodup hi ht' hj hji]; exact ham
   rw [ha]
   exact (mem_asLeaves_iff_ancestorAt_lv s' w'.dict w'.hNodup hl hleaf' ham' hmem').1 h2
+
+/-! ### every node has at least one leaf below it -/
+
+theorem leavesSpec_ne_nil (s : Strict t) :
+    ∀ (below : List Level) (i : Nat) (hi : i < t.hierarchy.length),
+      below = t.hierarchy.drop (i+1) → ∀ n, n ∈ t.nodesAt t.hierarchy[i] →
+      leavesSpec t below t.hierarchy[i] n ≠ []
+  | [], _, _, _, n, _ => by simp [leavesSpec]
+  | cl :: rest, i, hi, hb, n, hmem => by
+    have hi1 : i + 1 < t.hierarchy.length := by
+      rcases Nat.lt_or_ge (i+1) t.hierarchy.length with hc | hc
+      · exact hc
+      · rw [List.drop_eq_nil_of_le hc] at hb
+        cases hb
+    rw [List.drop_eq_getElem_cons hi1] at hb
+    have hcl : cl = t.hierarchy[i+1] := (List.cons.inj hb).1
+    have hrest : rest = t.hierarchy.drop (i+1+1) := (List.cons.inj hb).2
+    subst hcl
+    have hne := s.childNe _ _ (mem_levelPairs_of_idx hi1) n _ (mem_level_entry hmem)
+    rw [leavesSpec]
+    cases he : t.entry t.hierarchy[i] n with
+    | nil => exact absurd he hne
+    | cons c cs =>
+      have hc : c ∈ t.nodesAt t.hierarchy[i+1] :=
+        s.entry_sub hi1 hmem (by rw [he]; exact List.mem_cons_self)
+      have ih := leavesSpec_ne_nil s rest (i+1) hi1 hrest c hc
+      intro hnil
+      rw [List.flatMap_cons] at hnil
+      exact ih (List.append_eq_nil_iff.1 hnil).1
+
+theorem asLeaves_ne_nil (s : Strict t) (hn : t.hierarchy.Nodup) {i : Nat}
+    (hi : i < t.hierarchy.length) {n : Node} (hmem : n ∈ t.nodesAt t.hierarchy[i]) :
+    t.asLeaves t.hierarchy[i] n ≠ [] := by
+  have hp := asLeaves_perm_spec t t.hierarchy[i] n
+  rw [levelsBelow_getElem hn hi] at hp
+  intro hnil
+  rw [hnil] at hp
+  exact leavesSpec_ne_nil s _ i hi rfl n hmem hp.symm.eq_nil
 
 end CTM.RawTree
